@@ -137,7 +137,7 @@ func (e *Encoder) Reset(viewbox ivg.ViewBox, palette [64]color.RGBA) {
 		// explicit colors.
 		enc1, enc2, enc3 := true, true, true
 		for _, c := range m.Palette[:n+1] {
-			if enc1 && !ivg.Is1(c) {
+			if _, ok := ivg.RGBAColor(c).Encode1(); enc1 && !ok {
 				enc1 = false
 			}
 			if enc2 && !ivg.Is2(c) {
